@@ -503,6 +503,18 @@ def complete_check_rules(res, fx):
                 if comp is not None and comp != branch:
                     return None
                 return (branch, chk, env, lastc)
+            if isinstance(atom, dict) and atom.get('k') == 'case':
+                known = dict(env).get(path_of(atom.get('sw')))
+                if known is not None:
+                    def lab(v):
+                        v = see_through(v)
+                        return v['n'].split('::')[-1] if isinstance(v, dict) and v.get('k') == 'ref' else None
+                    if atom.get('v') is not None:
+                        if lab(atom['v']) is not None and lab(atom['v']) != known:
+                            return None
+                    elif known in [lab(o) for o in atom.get('others', [])]:
+                        return None
+                return s
             if isinstance(a, dict) and a.get('k') == 'call' and not a.get('op'):
                 return (comp, chk, env, (a.get('ln'), mname(a), branch))
             # comparison of a local with an enumerator whose value is known on this path
